@@ -301,6 +301,17 @@ func genTmplT(t *rapid.T, names []string, forbidden map[string]bool) []gen.TmplP
 	if len(ok) == 0 {
 		ok = []string{"nosuch"}
 	}
+	if rapid.IntRange(0, 7).Draw(t, "tmpl-root-variable-only") == 0 {
+		// a template that reaches the labels through the root variable only - not one dot in it
+		var parts []gen.TmplPart
+		for i, k := 0, rapid.IntRange(1, 3).Draw(t, "tmpl-root-parts"); i < k; i++ {
+			if rapid.Bool().Draw(t, "tmpl-root-lit") {
+				parts = append(parts, gen.TmplPart{Kind: "lit", Text: rapid.SampledFrom([]string{"r:", " ", "-", "#"}).Draw(t, "tmpl-root-text")})
+			}
+			parts = append(parts, gen.TmplPart{Kind: "root_index", A: rapid.SampledFrom(ok).Draw(t, "tmpl-root-a")})
+		}
+		return parts
+	}
 	n := rapid.IntRange(1, 4).Draw(t, "tmpl-parts")
 	var parts []gen.TmplPart
 	for i := 0; i < n; i++ {
